@@ -84,5 +84,9 @@ def run(ctx):
     ctx.stream("edgelist", gen.edgelist_lines(ctx.rng.fork("edgelist14"), 2000 if ctx.quick else 40000),
                "edge-list files as read by the tools: nodes, edges and forest/coforest labels vs. the documented grammar",
                describe=lambda c: gen.EDGELIST_CODES.get(c, str(c)))
+    import clilib
+    clilib.stream(ctx, "cligraph", gen.cligraph_lines(ctx.rng.fork("cligraph"), 1200 if ctx.quick else 30000),
+                  "cmr-graphic -c / cmr-network -c: output bytes vs. the representation matrix of the parsed edge list",
+                  lambda c: gen.CLIGRAPH_CODES.get(c, str(c)))
     ctx.stream("repmat", lines, "representation matrices: exhaustive small multigraphs x forests x reversals, random",
                describe=lambda c: CODES.get(c, str(c)), nontrivial=lambda l, r: int(l.split()[2]) >= 2)
